@@ -75,12 +75,12 @@ AddOk(cur, e) == /\ e.n \in TUserNames
                  /\ LET s2 == AddCset(cur, e.n, Desc(e), e.pres) IN DepsDefined(s2) /\ Acyclic(s2)
 JudgeAdd(cur, e) == EngDiff("Add", e.st, AddCset(cur, e.n, Desc(e), e.pres))
 JudgeReplace(cur, e) ==
-  LET x == ReplaceCset(cur, e.n) IN
-  (IF e.res # "ok" THEN {"Replace_result"} ELSE {}) \cup
+  LET x == TryReplace(cur, e.n) IN
+  (IF e.res # x.res THEN {"Replace_result"} ELSE {}) \cup
   (IF LogEq(e.log, x.log) THEN {} ELSE {"Replace_log"}) \cup EngDiff("Replace", e.st, x.s)
 JudgePeek(cur, e) ==
   LET x == Peek(cur, e.n) IN
-  (IF e.res # "ok" THEN {"Peek_result"} ELSE {}) \cup
+  (IF e.res # x.res THEN {"Peek_result"} ELSE {}) \cup
   (IF LogEq(e.log, x.log) THEN {} ELSE {"Peek_log"}) \cup EngDiff("Peek", e.st, x.s)
 JudgeHook(cur, e) ==
   LET F == FailOf(e)
@@ -94,15 +94,15 @@ EngPre(cur, e) ==
   CASE e.ev = "new"      -> e.m \in Modes /\ \A k \in DOMAIN e.ch : e.ch[k][1] \in HookSet(e.m) /\ e.ch[k][2] \in TTrigs
     [] e.ev = "register" -> e.t \in TTrigs
     [] e.ev = "addcset"  -> AddOk(cur, e)
-    [] e.ev = "replace"  -> e.n \in cur.pres
-    [] e.ev = "peek"     -> e.n \in Names /\ cur.src[e.n].def
+    [] e.ev = "replace"  -> e.n \in Names
+    [] e.ev = "peek"     -> e.n \in Names
     [] e.ev = "hook"     -> e.h \in HookSet(cur.mode) /\ \A t \in TTrigs : e.fail[t] \in Kinds
     [] OTHER -> FALSE
 EngExpected(cur, e) ==
   CASE e.ev = "new"      -> Construct(e.m, e.plugins, Pairs(e.ch)).s
     [] e.ev = "register" -> Register(cur, e.t).s
     [] e.ev = "addcset"  -> AddCset(cur, e.n, Desc(e), e.pres)
-    [] e.ev = "replace"  -> ReplaceCset(cur, e.n).s
+    [] e.ev = "replace"  -> TryReplace(cur, e.n).s
     [] e.ev = "peek"     -> Peek(cur, e.n).s
     [] OTHER             -> RunHook(cur, FailOf(e), e.h).s
 JudgeEng(cur, e) ==
@@ -113,7 +113,7 @@ JudgeEng(cur, e) ==
           [] e.ev = "replace"  -> JudgeReplace(cur, e)
           [] e.ev = "peek"     -> JudgePeek(cur, e)
           [] OTHER             -> JudgeHook(cur, e))
-       \cup (IF e.res = "ok" \/ e.ev = "hook" THEN StateClauses(ObsEng(e.st, EngExpected(cur, e))) ELSE {})
+       \cup (IF e.ev # "new" \/ e.res = "ok" THEN StateClauses(ObsEng(e.st, EngExpected(cur, e))) ELSE {})
 \* the state the next call of this trace is judged from
 EngNext(cur, e) ==
   IF ~EngPre(cur, e) THEN cur
@@ -124,6 +124,7 @@ EngNext(cur, e) ==
 OpPre(o, c, e) ==
   CASE e.ev = "opnew"  -> e.m \in Modes /\ (\A k \in DOMAIN e.fmt : e.fmt[k] \in TTrigs) /\ (\A k \in DOMAIN e.dom : e.dom[k] \in TTrigs)
     [] e.ev = "finish" -> (\A t \in TTrigs : e.fail[t] \in Kinds) /\ (\A x \in EnvCalls : e.env[x] \in {"ok", "false", "raise"})
+    [] e.ev = "abandon" -> TRUE
     [] OTHER -> FALSE
 ObsOp(e, x) == [x EXCEPT !.done = AsSet(e.ost.done), !.locks = e.ost.locks, !.tmps = e.ost.tmps, !.live = e.ost.live,
                          !.eng = IF e.ost.live THEN ObsEng(e.st, x.eng) ELSE x.eng]
@@ -138,12 +139,19 @@ JudgeFinish(o, c, e) ==
   (IF e.ost.live /\ x.s.live THEN EngDiff("Finish", e.st, x.s.eng) ELSE {}) \cup
   (IF \A k \in DOMAIN e.log : ItemOk(e.log[k]) THEN OpClauses(o, e.log, e.res) ELSE {"Finish_log_malformed"}) \cup
   (IF DonePrefix(ObsOp(e, x.s)) THEN {} ELSE {"DonePrefix"})
+JudgeAbandon(o, e) ==
+  LET x == Abandon(o) IN
+  (IF e.ost.locks = x.locks THEN {} ELSE {"Abandon_locks"}) \cup
+  (IF e.ost.tmps = x.tmps THEN {} ELSE {"Abandon_tempspaces"})
 JudgeOp(o, c, e) ==
   IF ~OpPre(o, c, e) THEN {"OutsideDomain"}
-  ELSE IF e.ev = "opnew" THEN {} ELSE JudgeFinish(o, c, e)
+  ELSE IF e.ev = "opnew" THEN {}
+  ELSE IF e.ev = "abandon" THEN JudgeAbandon(o, e)
+  ELSE JudgeFinish(o, c, e)
 OpNextState(o, c, e) ==
   IF ~OpPre(o, c, e) THEN o
   ELSE IF e.ev = "opnew" THEN OpNew(e.m)
+  ELSE IF e.ev = "abandon" THEN Abandon(o)
   ELSE ObsOp(e, Finish(o, FailOf(e), EnvOf(e), c.fmt, c.dom).s)
 
 (* ---------- get_writable_fsobj ---------- *)
@@ -157,7 +165,7 @@ JudgeWritable(e) ==
        (IF o.where = "fresh" => o.intemp THEN {} ELSE {"W_tempspace"}) \cup
        (IF WMustKeep(c) => o.srckept THEN {} ELSE {"W_source_kept"})
 
-IsOp(e) == e.ev \in {"opnew", "finish"}
+IsOp(e) == e.ev \in {"opnew", "finish", "abandon"}
 Judge(cur, o, c, e) ==
   IF e.ev = "writable" THEN JudgeWritable(e)
   ELSE IF IsOp(e) THEN JudgeOp(o, c, e)
